@@ -479,6 +479,8 @@ class BitArray(Bits):
 
     def _ror_msb0(self, bits: int, start: Optional[int] = None, end: Optional[int] = None) -> None:
         start, end = self._validate_slice(start, end)  # the _slice deals with msb0/lsb0
+        if start == end:
+            return  # Nothing to rotate
         bits %= (end - start)
         if not bits:
             return
@@ -504,6 +506,8 @@ class BitArray(Bits):
 
     def _rol_msb0(self, bits: int, start: Optional[int] = None, end: Optional[int] = None):
         start, end = self._validate_slice(start, end)
+        if start == end:
+            return  # Nothing to rotate
         bits %= (end - start)
         if bits == 0:
             return
